@@ -238,3 +238,21 @@ prop("C16",
      explanation="a difference on `spec.roundtrip` is an accepted program whose rendering is rejected or parses to a different program",
      assumptions=["the family in Props/C16x/Forms.lean is hand-chosen; forms outside it are covered by the search only"],
      )
+
+prop("C12",
+     modules=["Emu2a.Props.C12"],
+     theorems=["Emu2a.C12.run_spec", "Emu2a.C12.run_cycles_unique", "Emu2a.C12.run_eq_specRun", "Emu2a.C12.run_budget_monotone",
+               "Emu2a.C12.cycle_irrelevant", "Emu2a.C12.cycle_dup", "Emu2a.C12.verify_ok_iff", "Emu2a.C12.verify_err",
+               "Emu2a.C12.verify_eq_spec", "Emu2a.C12.cli_exit", "Emu2a.C12.parseU8_bound", "Emu2a.C12.parseU8_accepts",
+               "Emu2a.C12.parseU8_rejects_above"],
+     harness="c12",
+     binary="plain",
+     shrink=False,
+     exhaustive={"quick": False, "thorough": False},
+     level_text="Lean theorems on the model of the runner loop (runner/mod.rs transcribed with fuel): run_spec - for EVERY budget N, every interrupt and reset list (duplicates, cycle 0, entries beyond the end) and every initial machine the loop returns (stateAt k, k) where stateAt is the schedule-driven state sequence of the property (interrupt and/or CPU reset scheduled for i, then one edge), k <= N, either k = N or k >= 1 and the machine is not Running after cycle k, and it was Running after every earlier cycle; run_cycles_unique (that k is determined by the sequence alone), run_eq_specRun (loop = budget-recursive specification, which the driver evaluates), run_budget_monotone, cycle_irrelevant / cycle_dup (list membership is all that matters); verify_ok_iff / verify_err / verify_eq_spec (verification succeeds exactly when every stated expectation matches, first mismatch in the order state, FE, FF); cli_exit (exit status 0 iff the file could be read, the program was accepted and every stated expectation holds; the printed values are the final machine's, also when verification fails); parseU8_bound / parseU8_accepts / parseU8_rejects_above (auto-radix byte arguments: every byte accepted in three radices, nothing above 255 accepted). The loop transcription, machine construction (new_with_program: load then configuration in source order) and the CLI glue are tied to the code by differential runs in-process (complete machine dumps incl. private fields) and through the real `2a-emulator run ... verify ...` binary as a subprocess (exit status and printed Cycles/State/FE/FF)",
+     technique="Lean 4 loop characterisation by induction on fuel/budget (refinement to a declarative schedule) + case analysis for expectation matching and exit status + differential: real RunnerConfig::run, step-by-step execution of the property text on the real machine, and the real binary as a subprocess",
+     rule="in-process: programs from 12 templates (loops, interrupt routines, stack overflow, program-size limits, board ports), the repository's own programs/ and testing/programs/, generated programs and 5 invalid texts x budgets (0-3, 0-400, 1000-4000) x interrupt/reset lists (empty, single, up to 5 entries incl. 0, N-1, N, beyond N, duplicates) x machine configurations; `spec.runner` = real runner vs budget-recursive specification (complete dump + cycle count), `runner` = vs loop model, `spec.stepped` = real runner vs the property text executed on the real machine; `spec.verify`: every subset of expectations x every subset of them mismatching (quick: a third); `spec.cli`: the real binary with byte arguments in three radices / odd texts (28 boundary texts: 256, 0x100, 0b2, +255, 0x+7, empty, non-ASCII digits ...), arbitrary voltages, schedules, missing files, invalid programs, verify with true/false expectations: exit status and printed values; distinct = distinct argument tuples",
+     explanation="arguments the CLI refuses (clap) are expected to exit with status 1 and print nothing; a program hitting one of C06's known panics is excluded by the generator",
+     assumptions=["decimal text -> f32 parsing of --temp/--ai1/--ai2 is Rust's (the harness renders the voltage with Rust's shortest round-trip formatting and hands the bit pattern to the model)",
+                  "time_taken and log output are not compared"],
+     )
